@@ -802,9 +802,9 @@ theorem invL_process {bd : Nat} {t : Bool} {c : Conn} (h : InvL bd t c) (f : Fra
 
 /-! ## 7. Event handlers -/
 
-theorem invL_processChannelMessage {bd : Nat} {t : Bool} {c : Conn} (h : InvL bd t c) (n : Nat) (m : Msg) :
-    InvL bd t (processChannelMessage c n m).1 := by
-  unfold processChannelMessage
+theorem invL_processPlainMessage {bd : Nat} {t : Bool} {c : Conn} (h : InvL bd t c) (n : Nat) (m : Msg) :
+    InvL bd t (processPlainMessage c n m).1 := by
+  unfold processPlainMessage
   split
   · exact invL_sealOut (invL_pushOut h _)
   · exact invL_pushOut h _
@@ -833,6 +833,12 @@ theorem invL_popFifo {bd : Nat} {t : Bool} {c c1 : Conn} {m : Msg} (h : InvL bd 
     simp only [List.length_cons] at hb
     exact invL_setLink h _ (h.a.lt_of_lookup hl) rfl (by dsimp only; omega)
       (fun hok => linkOK_pop hok hf) (fun _ hi => by simpa using hi)
+
+theorem invL_processChannelMessage {bd : Nat} {t : Bool} {c : Conn} (h : InvL bd t c) (n : Nat) (m : Msg) :
+    InvL bd t (processChannelMessage c n m).1 :=
+  processChannelMessage_ind (P := InvL bd t)
+    (fun _ n _ m _ h _ hp => invL_processPlainMessage (invL_popFifo h hp) n m)
+    (fun _ h' => invL_processPlainMessage h' n m) h
 
 theorem invL_drainFifo {bd : Nat} {t : Bool} {c : Conn} (h : InvL bd t c) (fuel n : Nat) :
     InvL bd t (drainFifo fuel c n).1 := by
